@@ -79,3 +79,19 @@ def has_empty_obj(v):
         if v[0] == "a":
             return any(has_empty_obj(x) for x in v[1])
     return False
+
+
+def schema_pair(rng):
+    """(existing text, update text): object roots sharing keys, with string -> string updates over-represented"""
+    e = gen(rng, maxdepth=rng.choice([2, 3, 4]))
+    if not (isinstance(e, tuple) and e[0] == "o" and e[1]):
+        e = ("o", [(b"a", e), (b"s", ("s", b"old")), (b"k", gen(rng, 1))])
+
+    def strs(v):
+        if isinstance(v, tuple) and v[0] == "o":
+            return ("o", [(k, strs(x)) for k, x in v[1]])
+        if isinstance(v, tuple) and v[0] == "s" and rng.random() < 0.8:
+            return ("s", rng.choice([b"n", b"new value", b"N" * 40, b"esc\\n\\u00e9", b""]))
+        return derive(rng, v) if rng.random() < 0.5 else v
+    t = strs(e)
+    return text(rng, e), text(rng, t)
